@@ -40,6 +40,10 @@ impl OutMessage {
             _ => return Err(anyhow::anyhow!("Message is neither text nor bytes")),
         };
 
+        if crate::common::json_nesting_too_deep(&text) {
+            return Err(anyhow::anyhow!("JSON nested too deeply"));
+        }
+
         Ok(::simd_json::serde::from_slice(&mut text)?)
     }
 }
